@@ -31,6 +31,7 @@ Exch ==
      /\ bad' = ReportAll(bad, scn, l, <<
           <<over => Ev.status = 413 /\ inv = 0, "C15.RequestOverLimitIs413">>,
           <<~over => inv >= 1, "C07.HandlerInvoked">>,
+          <<~over => inv >= 1 /\ (Ev.status = 413 => final.status = 413), "C15.WithinLimitReachesHandler">>,
           <<All(Ev.seen, LAMBDA s : s.methodEq /\ s.urlEq /\ s.hdrEq), "C06.MethodUrlHeadersIdentical">>,
           <<All(Ev.seen, LAMBDA s : s.clEq), "C06.TrueLengthDeclared">>,
           <<All(Ev.seen, LAMBDA s : s.teEmpty), "C06.NoChunkedEncoding">>,
